@@ -184,13 +184,16 @@ def place_fault(rng, events, eligible, kinds=("kill", "io_error", "torn")):
     k = occ[0] if u < 0.2 else occ[-1] if u < 0.4 else rng.choice(occ)
     lab = events[k]
     op = lab.split(":", 1)[0]
-    ks = [x for x in kinds if x not in ("torn", "corrupt") or op in ("write", "tofile") or (x == "torn" and op == "move" and _cross_dir(lab))]
+    ks = [x for x in kinds if x not in ("torn", "corrupt", "short") or op in ("write", "tofile") or (x in ("torn", "short") and op == "move" and _cross_dir(lab))
+          or (x == "short" and op == "copy")]
     if op.startswith("enter") or op.startswith("exit"):
         ks = [x for x in ks if x in ("kill", "interrupt")] or ["kill"]
     kind = rng.choice(ks) if ks else "kill"      # a write-only kind on a non-write event degrades to a kill there
     f = {"kind": kind, "at": k, "label": lab}
-    if kind in ("torn", "corrupt"):
+    if kind in ("torn", "corrupt", "short"):
         f["tear"] = rng.choice([0.01, 0.25, 0.5, 0.75, 0.99, round(rng.random(), 3)])
+    if kind == "short":
+        f["errno"] = 28
     if kind == "io_error":
         f["errno"] = rng.choice([28, 5])  # ENOSPC, EIO
         if rng.random() < 0.3:
